@@ -632,3 +632,270 @@ def _reap_inv(L):
                rp1 == If(And(rp0 != 0, gone(rp0)), iv(0), rp0),
                z3.ForAll([p], Implies(And(gone(p), p != rp0), And(_exitcode(st0, p) != 3, _exitcode(st0, p) != 4))),
                st1.ghost["K_status"] == st0.ghost["K_status"])
+
+
+# ======================================================================================================
+# TTIN / TTOU / CHLD / signal queue
+# ======================================================================================================
+class _Arb1(Contract):
+    def cases(self, env):
+        st = State()
+        a = mk_arbiter(env, st, tracked_are_children=True)
+        st.obj(a).fields["LISTENERS"] = Opaque("listeners")
+        return [("arb", st, {"self": a}, {})]
+
+    def pre(self, c):
+        return SpawnWorker.pre(SpawnWorker(), c)
+
+    def modifies(self, c):
+        return ManageWorkers.modifies(ManageWorkers(), c) + [("field", c.a["self"], "_num_workers")]
+
+    def raises(self, c):
+        return [(SystemExit, None), (OSError, None), (RuntimeError, None)]
+
+
+@contract("gunicorn.arbiter:Arbiter.handle_ttin", props=("C03",))
+class HandleTtin(_Arb1):
+    def post(self, c):
+        st1, st0 = c.st, c.old
+        W = A(c).fields["WORKERS"]
+        nw0 = A(c, st0).fields["_num_workers"].t
+        return [("target-incremented", A(c, st1).fields["_num_workers"].t == nw0 + 1),
+                ("pool-reaches-at-least-the-new-target", w_size(st1, W) >= Min(nw0 + 1, Max(w_size(st0, W), nw0 + 1))),
+                ("only-TERM-is-sent", all_sig_same(st1, st0, TERM))]
+
+
+@contract("gunicorn.arbiter:Arbiter.handle_ttou", props=("C03",))
+class HandleTtou(_Arb1):
+    def post(self, c):
+        st1, st0 = c.st, c.old
+        W = A(c).fields["WORKERS"]
+        nw0 = A(c, st0).fields["_num_workers"].t
+        p = qvar("p")
+        same = And(A(c, st1).fields["_num_workers"].t == nw0, w_size(st1, W) == w_size(st0, W), all_sig_same(st1, st0, None),
+                   z3.ForAll([p], sel(w_map(st1, W), p) == sel(w_map(st0, W), p)))
+        return [("never-below-one-worker:nothing-changes", Implies(nw0 <= 1, same)),
+                ("target-decremented", Implies(nw0 > 1, A(c, st1).fields["_num_workers"].t == nw0 - 1)),
+                ("only-TERM-is-sent", all_sig_same(st1, st0, TERM))]
+
+
+@contract("gunicorn.arbiter:Arbiter.signal", props=("C03",))
+class ArbSignal(Contract):
+    def cases(self, env):
+        st = State()
+        a = mk_arbiter(env, st)
+        q = st.alloc(HList(sym=ListShape(IntShape()).fresh_seq(st, "SIG_QUEUE", view=False)))
+        st.obj(a).fields["SIG_QUEUE"] = q
+        return [("sig", st, {"self": a, "sig": SInt(z3.Int("sig")), "frame": Opaque("frame")}, {})]
+
+    def raises(self, c):
+        return [(OSError, None)]
+
+    def post(self, c):
+        q1 = c.st.obj(A(c).fields["SIG_QUEUE"]).sym
+        q0 = c.old.obj(A(c, c.old).fields["SIG_QUEUE"]).sym
+        n0 = q0.length()
+        return [("queued-FIFO-unless-five-are-pending", If(n0 < 5, And(q1.length() == n0 + 1, q1.elem(q1.hi - 1).t == c.a["sig"].t), q1.length() == n0)),
+                ("queue-never-longer-than-five", Implies(n0 <= 5, q1.length() <= 5))]
+
+
+@contract("gunicorn.arbiter:Arbiter.handle_chld", props=("C03",))
+class HandleChld(Contract):
+    def cases(self, env):
+        st = State()
+        a = mk_arbiter(env, st)
+        return [("chld", st, {"self": a, "sig": SInt(int(_signal.SIGCHLD)), "frame": Opaque("frame")}, {})]
+
+    def raises(self, c):
+        return ReapWorkers.raises(ReapWorkers(), c)
+
+    def post(self, c):
+        p = qvar("p")
+        return [("no-zombie-left", z3.ForAll([p], sel(c.st.ghost["K_state"], p) != 2))]
+
+
+# ======================================================================================================
+# stop / halt / TERM INT QUIT (C04)
+# ======================================================================================================
+def mk_listeners(env, st, a, n=2):
+    from .creds import mk_lsock
+    socks = [mk_lsock(env, st, strops.fresh_str(st, "lname%d" % k, True)) for k in range(n)]
+    st.obj(a).fields["LISTENERS"] = st.alloc(HList(socks))
+    return socks
+
+
+class _StopBase(Contract):
+    weight = 3
+
+    def mk(self, env, pidfile=False):
+        st = State()
+        a = mk_arbiter(env, st)
+        socks = mk_listeners(env, st, a)
+        st.ghost["close_calls"] = []
+        return st, a, socks
+
+
+def _close_sockets_stub(ex, st, self_v, args, kwargs, node):
+    """call-site summary of sock.close_sockets (its own contract is verified above): records the call"""
+    lst, unlink = args[0], (args[1] if len(args) > 1 else kwargs.get("unlink", SBool(True)))
+    st.ghost["close_calls"] = list(st.ghost.get("close_calls", [])) + [(lst, ex.truth(unlink, st))]
+    for s in ex.concrete_items(st, lst) or []:
+        st.obj(s).fields["g_closed"] = SBool(True)
+    bad = st.fork()
+    return [ex.res(st, NONE), ex.res_exc(bad, oserror(_errno.EIO))]
+
+
+@contract("gunicorn.arbiter:Arbiter.stop", props=("C04", "C14"))
+class ArbStop(_StopBase):
+    def cases(self, env):
+        out = []
+        for graceful in (True, False):
+            st, a, socks = self.mk(env)
+            out.append(("graceful=%s" % graceful, st, {"self": a, "graceful": SBool(graceful)}, {"socks": socks}))
+        return out
+
+    def modifies(self, c):
+        W = A(c).fields["WORKERS"]
+        return [("field", W, "g_map"), ("field", W, "g_size"), ("ghost", "K_sig_SIGTERM"), ("ghost", "K_sig_SIGQUIT"), ("ghost", "K_sig_SIGKILL"),
+                ("ghost", "now")]
+
+    def effects(self, c):
+        st = c.st
+        o0 = A(c, c.old)
+        cfg = o0.fields["cfg"]
+        unlink_spec = And(o0.fields["reexec_pid"].t == 0, o0.fields["master_pid"].t == 0, Not(c.ex.truth(o0.fields["systemd"], c.old)),
+                          Not(c.ex.truth(c.field(cfg, "reuse_port", c.old), c.old)))
+        st.ghost["close_calls"] = list(st.ghost.get("close_calls", [])) + [(o0.fields["LISTENERS"], unlink_spec)]
+        A(c).fields["LISTENERS"] = st.alloc(HList([]))
+
+    def raises(self, c):
+        return [(OSError, None, lambda c2: {"errno": SInt(fresh_int("errno"))})]
+
+    def post(self, c):
+        st1, st0 = c.st, c.old
+        W = A(c).fields["WORKERS"]
+        m1, m0 = w_map(st1, W), w_map(st0, W)
+        g = c.ex.truth(c.a["graceful"], st0)
+        from pyvc.smt import const_bool
+        first = TERM if const_bool(g) else QUIT
+        f1, f0 = sig_arr(st1, first), sig_arr(st0, first)
+        k1, k0 = sig_arr(st1, KILL), sig_arr(st0, KILL)
+        K = st0.ghost["K_state"]
+        p = qvar("p")
+        calls = st1.ghost.get("close_calls", [])
+        o0 = A(c, st0)
+        cfg = o0.fields["cfg"]
+        unlink_spec = And(o0.fields["reexec_pid"].t == 0, o0.fields["master_pid"].t == 0, Not(c.ex.truth(o0.fields["systemd"], st0)),
+                          Not(c.ex.truth(c.field(cfg, "reuse_port", st0), st0)))
+        lst1 = A(c, st1).fields["LISTENERS"]
+        other = QUIT if first == TERM else TERM
+        out = [("only-the-chosen-stop-signal-and-KILL-are-used", And(*[st1.ghost["K_sig_" + n] == st0.ghost["K_sig_" + n]
+                                                                        for s_, n in SIGNAME.items() if s_ not in (first, KILL)])),
+               ("listeners-closed-exactly-once", TRUE if len(calls) == 1 else FALSE),
+               ("LISTENERS-emptied", TRUE if (isinstance(lst1, Ref) and c.ex.concrete_items(st1, lst1) == []) else FALSE),
+               ("every-worker-told-to-stop(TERM-graceful/QUIT-otherwise)",
+                z3.ForAll([p], Implies(And(sel(m0, p) != 0, sel(K, p) != 0), sel(f1, p) >= sel(f0, p) + 1))),
+               ("workers-still-tracked-at-the-deadline-get-KILL", z3.ForAll([p], Implies(And(sel(m1, p) != 0, sel(K, p) != 0), sel(k1, p) >= sel(k0, p) + 1))),
+               ("only-tracked-workers-are-signalled", z3.ForAll([p], Implies(sel(m0, p) == 0, And(sel(f1, p) == sel(f0, p), sel(k1, p) == sel(k0, p)))))]
+        if len(calls) == 1:
+            out.append(("unix-socket-files-unlinked-only-when-no-other-master-uses-them", calls[0][1] == unlink_spec))
+        return out
+
+    loops = {0: dict(anchor="while self.WORKERS and time.time() < limit", cands=[
+        ("nothing-changes-while-waiting", lambda L: _stop_wait(L)),
+    ])}
+
+
+def _stop_wait(L):
+    st1, st0 = L.st, L.entry
+    W = st1.obj(L.self).fields["WORKERS"]
+    p = qvar("p")
+    return And(st1.obj(W).fields["g_map"].t == st0.obj(W).fields["g_map"].t, st1.obj(W).fields["g_size"].t == st0.obj(W).fields["g_size"].t,
+               *[st1.ghost["K_sig_" + n] == st0.ghost["K_sig_" + n] for n in SIGNAME.values()])
+
+
+@contract("gunicorn.arbiter:Arbiter.halt", props=("C04", "C17"))
+class ArbHalt(_StopBase):
+    def cases(self, env):
+        out = []
+        for pf in (False, True):
+            st, a, socks = self.mk(env)
+            if pf:
+                env.class_models["PidfileModel"] = _PidfileModel()
+                st.obj(a).fields["pidfile"] = st.alloc(HObj("PidfileModel", {"g_unlinks": SInt(0)}))
+            es = z3.Int("exit_status")
+            out.append(("pidfile=%s" % pf, st, {"self": a, "reason": NONE, "exit_status": SInt(es)}, {"pf": pf}))
+        return out
+
+    def raises(self, c):
+        return [(SystemExit, None), (OSError, None)]
+
+    def exc_post(self, c):
+        if c.exc is not None and c.exc.cls is SystemExit:
+            code = c.exc.fields.get("code")
+            out = [("exits-with-the-given-status", code.t == c.a["exit_status"].t if isinstance(code, SInt) else FALSE),
+                   ("stopped-before-exiting", TRUE if len(c.st.ghost.get("close_calls", [])) == 1 else FALSE)]
+            pf = A(c).fields["pidfile"]
+            if isinstance(pf, Ref):
+                out.append(("own-pid-file-unlinked-once", c.st.obj(pf).fields["g_unlinks"].t == 1))
+            return out
+        return []
+
+    def post(self, c):
+        return [("halt-never-returns", FALSE)]
+
+
+class PidfileModel(ClassModel):
+    pass
+
+
+class _PidfileModel(ClassModel):
+    def call(self, ex, st, self_v, meth, args, kwargs, node):
+        o = st.obj(self_v)
+        if meth == "unlink":
+            o.fields["g_unlinks"] = SInt(o.fields["g_unlinks"].t + 1)
+            return [ex.res(st, NONE)]
+        if meth == "rename":
+            o.fields["g_renamed_to"] = args[0]
+            bad = st.fork()
+            return [ex.res(st, NONE), ex.res_exc(bad, SExc(RuntimeError))]
+        return None
+
+
+class _TermLike(Contract):
+    graceful_stop = None
+
+    def cases(self, env):
+        st = State()
+        a = mk_arbiter(env, st)
+        mk_listeners(env, st, a)
+        st.ghost["close_calls"] = []
+        return [("sig", st, {"self": a}, {})]
+
+    def raises(self, c):
+        return [(StopIteration, None), (OSError, None)]
+
+    def post(self, c):
+        return [("always-leads-to-shutdown(StopIteration)", FALSE)]
+
+
+@contract("gunicorn.arbiter:Arbiter.handle_term", props=("C04",))
+class HandleTerm(_TermLike):
+    def exc_post(self, c):
+        if c.exc is not None and c.exc.cls is StopIteration:
+            return [("TERM-does-not-stop-workers-itself(graceful-stop-happens-in-halt)", TRUE if len(c.st.ghost.get("close_calls", [])) == 0 else FALSE)]
+        return []
+
+
+@contract("gunicorn.arbiter:Arbiter.handle_int", props=("C04",))
+class HandleInt(_TermLike):
+    def exc_post(self, c):
+        if c.exc is not None and c.exc.cls is StopIteration:
+            return [("quick-stop-ran-first", TRUE if len(c.st.ghost.get("close_calls", [])) == 1 else FALSE),
+                    ("workers-got-QUIT-not-TERM", c.st.ghost["K_sig_SIGTERM"] == c.old.ghost["K_sig_SIGTERM"])]
+        return []
+
+
+@contract("gunicorn.arbiter:Arbiter.handle_quit", props=("C04",))
+class HandleQuit(HandleInt):
+    pass
